@@ -68,7 +68,7 @@ def run(chk):
                 "order; each scenario is materialised (files out of scope carry an unclosed tag, so any leak is an error) "
                 "and listed through the CLI from the root or a sub-directory; non-trivial = scenario with a glob, ignore or diff")
     # every order, small bounds
-    res = vlib.run_tlc("MC_C15", cfg_text=rc.set_consts("MC_C15", FixS1="TRUE"), timeout=1800, heap="12g")
+    res = vlib.run_tlc("MC_C15", cfg_text=rc.set_consts("MC_C15", FixS1="TRUE", MaxIgnores=0 if quick else 1), timeout=1800, heap="12g")
     chk.add_tlc(res, "MC_C15 every order")
     cfg = rc.set_consts("MC_C15", MaxGlobs=2, MaxIgnores=1 if quick else 2, MaxDiff=2, AnyOrder="FALSE", FixS1="TRUE")
     res = vlib.run_tlc("MC_C15", cfg_text=cfg, timeout=3000, heap="16g")
